@@ -17,4 +17,13 @@ PROPS = {
         assumptions=["non-ASCII column strings are outside the byte-level model of strings.ToUpper"],
         timeout=3000,
     ),
+    "C08": dict(
+        gen=[],
+        trusted=[
+            "binary64 rounding is outside every theorem: the model is over Z and the correspondence uses integer operands whose intermediate values stay far below 2^53 (exact in float64)",
+            "the advance of a shown string depends on font metrics: positions are compared only at a show that follows a positioning operator (model flag g_clean), as the property states",
+            "modelled: model.Matrix Multiply/Transform/Translate/Identity; graphicsstate Transform, Save, Restore, Clone, BeginText, SetTextMatrix, TranslateText, TranslateTextSetLeading, NextLine, SetLeading, GetTextPosition, GetEffectiveFontSize; text.Extractor.processOperation dispatch for q Q cm BT ET Tf Tm Td TD T* TL Tc Tw Tz Tj ' \" Do and invokeXObject's Save/Transform(/Matrix)/Restore bracket; text rise (Ts) not modelled",
+        ],
+        assumptions=["font size compared when the CTM's vertical scale is rational (perfect square), else both sides report -1"],
+    ),
 }
